@@ -8,6 +8,9 @@
 #include <zix/allocator.h>
 #include <zix/path.h>
 
+#include <sys/wait.h>
+#include <unistd.h>
+
 #ifdef C12_ITER
 #  include "path_iter.h"
 #endif
@@ -141,12 +144,30 @@ static void put_canon(const char* t, size_t n)
   }
 }
 
-int main(void)
+// "--fork": every case runs in its own child, so a sanitizer abort costs one line ("CRASH rc=..")
+// instead of the process; the plug-in switches to it after repeated crashes
+int main(int argc, char** argv)
 {
-  char*  line = NULL;
-  size_t cap  = 0;
-  char*  tok[4];
+  const int fork_mode = argc > 1 && !strcmp(argv[1], "--fork");
+  char*     line      = NULL;
+  size_t    cap       = 0;
+  char*     tok[4];
   while (vgetline(&line, &cap)) {
+    if (fork_mode) {
+      fflush(stdout);
+      pid_t pid = fork();
+      if (pid > 0) {
+        int st = 0;
+        waitpid(pid, &st, 0);
+        if (!(WIFEXITED(st) && WEXITSTATUS(st) == 0)) {
+          printf("CRASH rc=%d\n", WIFEXITED(st) ? WEXITSTATUS(st) : 128 + WTERMSIG(st));
+        }
+        continue;
+      }
+      if (pid == 0 && !freopen("/dev/null", "w", stderr)) {
+        _exit(97);
+      }
+    }
     int n = vsplit(line, tok, 4);
     track_reset();
     if (n == 3 && !strcmp(tok[0], "J")) {
@@ -234,6 +255,9 @@ int main(void)
       puts("?");
     }
     fflush(stdout);
+    if (fork_mode) {
+      _exit(0);
+    }
   }
   free(line);
   return 0;
